@@ -1,7 +1,7 @@
 //@ unit: C12.handlers
 //@ props: C12
 //@ source: src/dap/yadap/session/control.rs
-//@ fn: DebugSession::handle_continue, DebugSession::handle_next, DebugSession::handle_configuration_done
+//@ fn: DebugSession::handle_continue, DebugSession::handle_next, DebugSession::handle_step_in, DebugSession::handle_step_out, DebugSession::handle_configuration_done
 //@ assume: send_success_body appends exactly one response for `req` (send_response_raw: unit C12.wire, E_rsp) or fails with the transport; enqueue_event, drain_events, begin_running, current_thread_id and emit_stop_reason append no response (events only); emit_stop_reason and continue_debugee_with_reason may fail for debugger reasons
 //@ assume: signature substitution anyhow::Result<()> -> Result<(), AnyErr>; `json!`, `anyhow!`, `.context(..)` outlined
 //@ notcovered: the other handlers (each would need its own outline set); this unit is the evidence for the dispatch contract assumed by C12.wire: a handler answers at most once, exactly once when it returns Ok, and handle_continue answers BEFORE it can fail
@@ -28,6 +28,10 @@ impl Dbg {
     pub fn continue_debugee_with_reason(&mut self) -> (r: Result<StopReason, AnyErr>) { unimplemented!() }
     #[verifier::external_body]
     pub fn step_over(&mut self) -> (r: Result<(), DErr>) { unimplemented!() }
+    #[verifier::external_body]
+    pub fn step_into(&mut self) -> (r: Result<(), DErr>) { unimplemented!() }
+    #[verifier::external_body]
+    pub fn step_out(&mut self) -> (r: Result<(), DErr>) { unimplemented!() }
 }
 
 pub struct DebugSession {
@@ -138,6 +142,34 @@ impl DebugSession {
 //@   outline O_last: `self.last_stop = Some(LastStop { $f });` => `self.outline_set_last_stop();`
 //@   outline O_str: `"step".to_string()` => `outline_step_str()`
 //@   outline O_fmt: `format!("next failed: {e}")` => `outline_fmt(&e)`
+//@ end
+
+//@ extract: impl super::DebugSession / fn handle_step_in
+//@   sig: pub fn handle_step_in(&mut self, req: &DapRequest) -> (r: Result<(), AnyErr>)
+//@   ensures E_hsi_others: final(self).answered_others@ == old(self).answered_others@
+//@   ensures E_hsi_once: !final(self).io_failed@ && r is Ok ==> final(self).answered@ == old(self).answered@ + 1
+//@   ensures E_hsi_at_most_once: !final(self).io_failed@ ==> old(self).answered@ <= final(self).answered@ <= old(self).answered@ + 1
+//@   ensures E_hsi_announced: !final(self).io_failed@ ==> final(self).continued@ - old(self).continued@ == final(self).succ@ - old(self).succ@
+//@   outline O_json: `json!($x)` => `outline_json()`
+//@   outline O_dbg: `self .debugger .as_mut() .ok_or_else(|| anyhow!($m))?` => `self.outline_debugger()?`
+//@   rewrite W_err: `debugger::Error::ProcessExit` => `DErr::ProcessExit`
+//@   outline O_last: `self.last_stop = Some(LastStop { $f });` => `self.outline_set_last_stop();`
+//@   outline O_str: `"step".to_string()` => `outline_step_str()`
+//@   outline O_fmt: `format!("stepIn failed: {e}")` => `outline_fmt(&e)`
+//@ end
+
+//@ extract: impl super::DebugSession / fn handle_step_out
+//@   sig: pub fn handle_step_out(&mut self, req: &DapRequest) -> (r: Result<(), AnyErr>)
+//@   ensures E_hso_others: final(self).answered_others@ == old(self).answered_others@
+//@   ensures E_hso_once: !final(self).io_failed@ && r is Ok ==> final(self).answered@ == old(self).answered@ + 1
+//@   ensures E_hso_at_most_once: !final(self).io_failed@ ==> old(self).answered@ <= final(self).answered@ <= old(self).answered@ + 1
+//@   ensures E_hso_announced: !final(self).io_failed@ ==> final(self).continued@ - old(self).continued@ == final(self).succ@ - old(self).succ@
+//@   outline O_json: `json!($x)` => `outline_json()`
+//@   outline O_dbg: `self .debugger .as_mut() .ok_or_else(|| anyhow!($m))?` => `self.outline_debugger()?`
+//@   rewrite W_err: `debugger::Error::ProcessExit` => `DErr::ProcessExit`
+//@   outline O_last: `self.last_stop = Some(LastStop { $f });` => `self.outline_set_last_stop();`
+//@   outline O_str: `"step".to_string()` => `outline_step_str()`
+//@   outline O_fmt: `format!("stepOut failed: {e}")` => `outline_fmt(&e)`
 //@ end
 
 //@ extract: impl super::DebugSession / fn handle_configuration_done
